@@ -516,6 +516,14 @@ fn split_frames(b: &[u8]) -> Vec<(u8, Vec<u8>)> {
 // ------------------------------------------------------------------ what tonic puts on the wire for one message
 /// the payload tonic itself writes behind the prefix for `m` under (encoding, buffer size):
 /// ground truth for "on-the-wire length" (cross-checked against the library called directly)
+static PROBE_ANOMALIES: std::sync::Mutex<Vec<(String, String)>> = std::sync::Mutex::new(Vec::new());
+fn probe_anomaly(what: String, e: Option<Enc>, m: &[u8]) {
+    let input = format!("{{\"encoding\":\"{:?}\",\"message_len\":{},\"message_head\":{:?}}}", e, m.len(), &m[..m.len().min(32)]);
+    let mut a = PROBE_ANOMALIES.lock().unwrap();
+    if a.len() < 16 {
+        a.push((what, input));
+    }
+}
 struct WireCache(HashMap<(Option<Enc>, Vec<u8>), Vec<u8>>);
 impl WireCache {
     fn payload(&mut self, e: Option<Enc>, m: &[u8]) -> Vec<u8> {
@@ -525,7 +533,15 @@ impl WireCache {
         // the probe must not die in panic mode (it is not what is being judged)
         let was = STRICT_PANICS.swap(false, Ordering::SeqCst);
         let probe = Case { prost: false, comp: e, override_disable: false, max: None, bs: (8192, 32768), server: false, dmax: None, src: vec![], cuts: vec![], pend: vec![] };
-        let (frames, _) = encode_with(RawEnc(BufferSettings::new(8192, 32768)), vec![Some(m.to_vec())], &probe, None).expect("probe");
+        // The probe never panics: it is not what is being judged, and a change of tonic that makes
+        // it fail must surface as an oracle verdict with an input, not as a harness crash.
+        let frames = match encode_with(RawEnc(BufferSettings::new(8192, 32768)), vec![Some(m.to_vec())], &probe, None) {
+            Ok((f, _)) => f,
+            Err(w) => {
+                probe_anomaly(format!("encoding one {}-byte message under {:?} failed: {}", m.len(), e, w), e, m);
+                vec![]
+            }
+        };
         let mut data = vec![];
         for f in &frames {
             if let Fr::Data(d) = f {
@@ -533,11 +549,30 @@ impl WireCache {
             }
         }
         let fr = split_frames(&data);
-        assert!(!fr.is_empty(), "probe: a frame");
-        let p = fr[0].1.clone();
-        if let Some(e) = e {
-            assert_eq!(e.decompress(&p).as_deref(), Some(m), "probe: the library inflates the payload to the message");
-        }
+        let p = match fr.first() {
+            Some((flag, p)) => {
+                match (e, *flag) {
+                    // a compressed payload must inflate to the message (library called directly)
+                    (Some(enc), 1) => {
+                        if enc.decompress(p).as_deref() != Some(m) {
+                            probe_anomaly(format!("a lone {}-byte message under {:?}: the flagged payload does not inflate to the message", m.len(), enc), e, m);
+                        }
+                    }
+                    // flag 0 is legal for any message (it then travels as it is)
+                    (_, 0) => {
+                        if p.as_slice() != m {
+                            probe_anomaly(format!("a lone {}-byte message under {:?}: flag 0 but the payload is not the message", m.len(), e), e, m);
+                        }
+                    }
+                    (_, f) => probe_anomaly(format!("a lone {}-byte message under {:?}: flag byte {}", m.len(), e, f), e, m),
+                }
+                p.clone()
+            }
+            None => {
+                probe_anomaly(format!("a lone {}-byte message under {:?} produced no complete frame", m.len(), e), e, m);
+                m.to_vec()
+            }
+        };
         self.0.insert((e, m.to_vec()), p.clone());
         STRICT_PANICS.store(was, Ordering::SeqCst);
         p
@@ -1564,6 +1599,18 @@ fn main() {
                 }
             }
         }
+    }
+    for (what, input) in PROBE_ANOMALIES.lock().unwrap().iter() {
+        // one encoded message did not come back from the wire as itself: a direct failure of the
+        // round trip, found by the harness's own wire-length probe
+        out.push(vcommon::Case {
+            kind: "probe.single_message".into(),
+            input: serde_json::from_str(input).unwrap_or(json!({"input": input})),
+            model: "Nd []".into(),
+            impl_obs: Tr::L(vec![]),
+            oracle: Some(format!("single-message probe: {}", what)),
+            nontrivial: false,
+        });
     }
     out.finish(
         IMPORTS,
